@@ -23,10 +23,30 @@
 #define VEC_MAX 70000ul
 #endif
 
+/* counterexample mode (-DVERIF_CEX=K): byte buffers of symbolic length n are allocated with constant capacity K and
+ * n <= K, so that CBMC's trace lists their initial bytes (same code, same contracts) */
+#ifdef VERIF_CEX
+#define CEX_CAP(n) ((size_t)VERIF_CEX)
+#define CEX_LIMIT(n) ((n) <= (size_t)VERIF_CEX)
+#else
+#define CEX_CAP(n) (n)
+#define CEX_LIMIT(n) 1
+#endif
+
 #define VERIF_SWAP(T, a, b) do { T __swap_tmp = (a); (a) = (b); (b) = __swap_tmp; } while (0)
 
 static inline size_t sz_max(size_t a, size_t b) { return a < b ? b : a; }   /* std::max: (a < b) ? b : a */
 static inline size_t sz_min(size_t a, size_t b) { return b < a ? b : a; }   /* std::min: (b < a) ? b : a */
+
+/* ---- specification vocabulary: raw bytes, big-endian words ---- */
+#define B(p, i) (((const uint8_t *)(p))[i])
+#define BE16(p, o) ((uint16_t)(((uint16_t)B(p, o) << 8) | (uint16_t)B(p, (o) + 1)))
+#define BE32(p, o) ((uint32_t)(((uint32_t)B(p, o) << 24) | ((uint32_t)B(p, (o) + 1) << 16) | ((uint32_t)B(p, (o) + 2) << 8) | (uint32_t)B(p, (o) + 3)))
+#define BE64(p, o) ((uint64_t)(((uint64_t)BE32(p, o) << 32) | (uint64_t)BE32(p, (o) + 4)))
+static inline uint32_t verif_f2u(float f) { union { float f; uint32_t u; } x; x.f = f; return x.u; }
+_Bool nondet_bool(void);
+size_t nondet_size_t(void);
+uint8_t nondet_u8(void);
 
 /* ---- ghost index: "for all k" statements about bytes are stated at g_k (nondet, never assigned) ---- */
 extern size_t g_k;
